@@ -306,9 +306,6 @@ func genPair(r *hx.Rng) (string, string) {
 }
 
 func (area) Gen(r *hx.Rng, n int, _ string, emit func(string)) {
-	// hx.NewRng(seed) and hx.NewRng(seed+1) are the same SplitMix64 stream shifted by one draw, and the shards of one
-	// run use consecutive seeds; forking first (the state becomes a mixed output) makes the shards independent.
-	r = r.Fork()
 	for i := 0; i < n; i++ {
 		a, b := genPair(r)
 		ci := strconv.Itoa(r.Intn(2))
